@@ -39,6 +39,28 @@ CHECKS = {
             "that re-resolves to exactly that node in both notations, with "
             "no path object mutated after it was handed out.",
             TRUST, "6/C02"),
+    "C03": (True, "exploration",
+            "exhaustive small-scope enumeration of single edits + Hypothesis "
+            "rule-based state machine over edit histories, compared step by "
+            "step with a plain-data model; dump/reload round-trip",
+            "Every scalar leaf of every document <= 3 nodes x 6 new values, "
+            "vocabulary paths, an enumerated family of anchored/aliased "
+            "documents, and ~1000 random histories of up to 12 set/create/"
+            "delete steps on one living document; the model is recomputed "
+            "from the untouched state before each step and the document "
+            "must dump and strictly reload to the same data after each.",
+            TRUST + "Matched positions are decided by the C01 reference "
+            "evaluator.", "6/C03"),
+    "C04": (True, "exploration",
+            "exhaustive small-scope enumeration + Hypothesis generation, "
+            "differential against a plain-data deletion model",
+            "Every document <= 3 nodes x every vocabulary path <= 2 segments "
+            "that matches something is deleted through both public entry "
+            "points on fresh copies and compared with the model (matched set "
+            "removed, everything else and its order kept); root deletion "
+            "must be refused with the document unchanged.",
+            TRUST + "Matched positions are decided by the C01 reference "
+            "evaluator.", "6/C04"),
     "C12": (True, "exploration",
             "complete finite grid + Hypothesis generation against a "
             "reference comparison table; metamorphic inversion-complement "
